@@ -1066,3 +1066,48 @@ Proof.
   destruct (waiting_on _ e id); auto.
   rewrite on_payload_other; auto; congruence.
 Qed.
+
+(* ==================================================================================================================== *)
+(* The two models agree (bounded, by computation): Part A is Part B with one execution, the fault sequence compiled into
+   manager events (d = number of overtaken requests still on the wire, they precede the current request).               *)
+Fixpoint compile (d : nat) (fs : list fault) : list event :=
+  match fs with
+  | [] => []
+  | NoFault :: r => Process d :: Respond 0 :: compile d r
+  | Reject c :: r => RejectReq d c :: Respond 0 :: compile d r
+  | BreakBefore x :: r => Break x :: compile (S d) r
+  | BreakAfter x :: r => Process d :: Break x :: compile d r
+  | Late k :: r => if k <? d then Process k :: compile (pred d) r else compile d r
+  end.
+
+Definition outcome_of_manager (m : mgr) : outcome :=
+  match ldones m with
+  | [(_, _, OReturned _)] => Returned
+  | [(_, _, ORaisedStream c)] => RaisedStream c
+  | [(_, _, ORaisedExn x)] => RaisedExn x
+  | _ => OutOfFuel
+  end.
+
+Definition models_agree (p j : bool) (fs : list fault) : bool :=
+  let m := mrun (if p then [0] else []) (if j then [0] else []) []
+                (Submit 0 :: compile 0 (fs ++ [NoFault; NoFault; NoFault])) in
+  match client (length fs + 4) (mkserver p j 0) [] CreateProgJob fs with
+  | (_, o, reqs) =>
+    outcome_eqb o (outcome_of_manager m) && leqb req_eqb reqs (map (fun x => snd x) (obs_reqs m))
+  end.
+
+Definition fault_alphabet : list fault :=
+  [NoFault; BreakBefore XServiceUnavailable; BreakBefore XNotFound; BreakAfter XUnknown; BreakAfter XRuntimeError;
+   Reject PROGRAM_ALREADY_EXISTS; Reject JOB_ALREADY_EXISTS; Reject PROGRAM_DOES_NOT_EXIST; Reject JOB_DOES_NOT_EXIST;
+   Reject INTERNAL; Late 0; Late 1].
+
+Fixpoint sequences (n : nat) : list (list fault) :=
+  match n with
+  | O => [[]]
+  | S k => [] :: flat_map (fun s => map (fun a => a :: s) fault_alphabet) (sequences k)
+  end.
+
+Lemma models_agree_bounded :
+  forallb (fun pj => forallb (models_agree (fst pj) (snd pj)) (sequences 3))
+          [(false, false); (true, false); (true, true); (false, true)] = true.
+Proof. vm_compute. reflexivity. Qed.
